@@ -19,6 +19,7 @@ import common, drv
 WORDS = ["?lt", "!lt", "?gt", "!gt", "?eq", "!eq", "?ne", "!ne", "?ge", "!ge", "?le", "!le"]
 INFIX = ["<", ">", "==", "!=", ">=", "<="]
 F1, F2, F3 = "/repo/tests/typedef.o", "/repo/tests/dwz-partial", "/repo/tests/bitcount.o"
+F4, F5, F6 = "/repo/tests/y-mips.o", "/repo/tests/float_const_value.o-armv7hl", "/repo/tests/float_const_value.o-ppc64"
 
 
 DIE_WILDCARD_KEY = "eq-transitivity:die-import-path-wildcard"
@@ -44,7 +45,9 @@ def core_pool(tier):
     named = ["DW_TAG_array_type", "DW_AT_sibling", "DW_FORM_addr", "DW_LANG_C89", "DW_ATE_address", "DW_ACCESS_public", "DW_VIS_local",
              "DW_VIRTUALITY_virtual", "DW_TAG_class_type", "DW_AT_location", "DW_OP_addr", "DW_OP_deref", "DW_INL_inlined", "DW_ID_up_case",
              "DW_CC_normal", "DW_ORD_col_major", "DW_DSC_range", "DW_DS_unsigned", "DW_END_big", "DW_ADDR_none", "DW_DEFAULTED_in_class",
-             "STT_FUNC", "STT_OBJECT", "STB_GLOBAL", "STB_LOCAL", "STV_DEFAULT", "STV_HIDDEN", "DW_MACINFO_define", "DW_MACRO_define"]
+             "STT_FUNC", "STT_OBJECT", "STB_GLOBAL", "STB_LOCAL", "STV_DEFAULT", "STV_HIDDEN", "DW_MACINFO_define", "DW_MACRO_define",
+             "STT_NOTYPE", "STT_SECTION", "STT_FILE", "STT_GNU_IFUNC", "STT_ARM_TFUNC", "STT_SPARC_REGISTER", "STT_HP_OPAQUE", "STT_ARM_16BIT",
+             "STB_WEAK", "STB_GNU_UNIQUE", "STB_MIPS_SPLIT_COMMON", "STT_GNU_IFUNC value", "STT_ARM_TFUNC 11 sub", "STT_ARM_TFUNC 3 sub", "STB_MIPS_SPLIT_COMMON 12 sub"]
     for n in named:
         p.append((n, None))
     p += [("DW_TAG_array_type value", ("int", 1, "arith")), ("DW_AT_sibling hex", ("int", 1, "arith"))]
@@ -68,6 +71,12 @@ def dw_pool(tier):
          "E entry ?TAG_imported_unit (pos == 0) @AT_import child (pos == 0)", "E entry ?TAG_imported_unit (pos == 1) @AT_import child (pos == 0)",
          "E unit (pos == 0) root child (pos == 0)", "E unit (pos == 1) root child (pos == 0)", "E unit (pos == 0) root child (pos == 1)",
          "E raw unit (pos == 0) root child (pos == 0) cooked", "E entry ?TAG_imported_unit (pos == 0)"]
+    # type / binding / visibility constants in the machine-specific families of non-x86 files
+    for h in "GHI":
+        for k in (1, 2, 4):
+            p += ["%s symbol (pos == %d) label" % (h, k), "%s symbol (pos == %d) binding" % (h, k)]
+        p += ["%s symbol (pos == 1) visibility" % h]
+        p += ["%s symbol (pos == 1)" % h]
     return [(x, None) for x in p]
 
 
@@ -114,50 +123,42 @@ def model_cmp(a, b):
 def build_matrix(d, pool, files):
     """Returns (canon list, matrix dict (i,j)->flags tuple, problems)."""
     alts = ", ".join("(%s)" % s for s, _ in pool)
-    binders = "|D E F|"
+    binders = "|D E F G H I|"
     # discover canonical forms (and which snippets actually yield exactly one value)
     canon, problems = [], []
-    r = d.run("(%s (%s))" % (binders, alts), i="d1,d2,d3", lim=len(pool) + 5)
+    r = d.run("(%s (%s))" % (binders, alts), i="d1,d2,d3,d4,d5,d6", lim=len(pool) + 5)
     res = r.results()
     if r.crash or len(res) != len(pool):
         # find the offending snippets one by one
         keep = []
         for s, k in pool:
-            rr = d.run("(%s %s)" % (binders, s), i="d1,d2,d3", lim=3)
+            rr = d.run("(%s %s)" % (binders, s), i="d1,d2,d3,d4,d5,d6", lim=3)
             if rr.crash:
                 problems.append(("crash", s, rr.crash))
             elif len(rr.results()) == 1:
                 keep.append((s, k))
         pool[:] = keep
         alts = ", ".join("(%s)" % s for s, _ in pool)
-        res = d.run("(%s (%s))" % (binders, alts), i="d1,d2,d3", lim=len(pool) + 5).results()
-    # snippets that evaluate to the very same canonical value are one pool entry
-    seen, keep, kres = set(), [], []
-    for (sn, k), c in zip(pool, res):
-        if c not in seen:
-            seen.add(c)
-            keep.append((sn, k))
-            kres.append(c)
-    pool[:] = keep
-    res = kres
-    alts = ", ".join("(%s)" % s for s, _ in pool)
+        res = d.run("(%s (%s))" % (binders, alts), i="d1,d2,d3,d4,d5,d6", lim=len(pool) + 5).results()
+    # N.B. no de-duplication by canonical text: constants of different domain objects that share a name
+    # (machine-specific ELF families) print alike but are different values.  Groups are identified by order:
+    # an ALT fed one stack yields its branches left to right.
     canon = res
-    index = {}
-    for i, c in enumerate(canon):
-        index.setdefault(c, i)
     q = flags_query()
     M = {}
-    cmds = [drv.run_cmd(q, p="(%s (%s) (%s))" % (binders, pool[i][0], alts), i="d1,d2,d3", lim=3) for i in range(len(pool))]
+    cmds = [drv.run_cmd(q, p="(%s (%s) (%s))" % (binders, pool[i][0], alts), i="d1,d2,d3,d4,d5,d6", lim=3) for i in range(len(pool))]
     rs = d.batch(cmds)
     for i, r in enumerate(rs):
         if r.crash:
             problems.append(("crash-row", pool[i][0], r.crash))
             continue
         cur = None
+        gi = -1
         for l in r.lines:
             if l.startswith("g "):
+                gi += 1
                 parts = l[2:].split(" ")
-                cur = index.get(parts[-1])
+                cur = gi if (gi < len(canon) and parts[-1] == canon[gi]) else None
             elif l.startswith("r ") and cur is not None:
                 seq = l[2:].split(" ")[-1]
                 flags = parse_flags(seq)
@@ -212,7 +213,7 @@ def analyse(pool, canon, M):
                 yield "pair:%s|%s|converse" % (name(i), name(j)), "(%s < %s) is %d but (%s > %s) is %d" % (name(i), name(j), lt, name(j), name(i), f(j, i, "?gt"))
             if eq != f(j, i, "?eq"):
                 yield "pair:%s|%s|symmetry" % (name(i), name(j)), "`==` is not symmetric on (%s, %s)" % (name(i), name(j))
-        if canon[i] == canon[j] and not eq:
+        if i == j and not eq:
             yield "pair:%s|%s|copy" % (name(i), name(j)), "a value does not equal its own copy: (%s, %s) both are %s" % (name(i), name(j), canon[i])
         exp = model_cmp(pool[i][1], pool[j][1])
         if exp is not None and (lt, eq, gt) != (int(exp < 0), int(exp == 0), int(exp > 0)):
@@ -267,19 +268,18 @@ def seq_law(d, pool, canon, M):
     W = {w: k for k, w in enumerate(WORDS)}
     alts = ", ".join("([%s])" % s for s, _ in pool)
     q = "(|X Y| [(X Y ?lt 1 || 0), (X Y ?eq 1 || 0), (X Y ?gt 1 || 0)])"
-    cmds = [drv.run_cmd(q, p="(|D E F| ([%s]) (%s))" % (pool[i][0], alts), i="d1,d2,d3", lim=3) for i in range(len(pool))]
-    index = {}
-    for i, c in enumerate(canon):
-        index.setdefault("[" + c + "]@0", i)
+    cmds = [drv.run_cmd(q, p="(|D E F G H I| ([%s]) (%s))" % (pool[i][0], alts), i="d1,d2,d3,d4,d5,d6", lim=3) for i in range(len(pool))]
     n = 0
     for i, r in enumerate(d.batch(cmds)):
         cur = None
+        gi = -1
         if r.crash:
             out.append(("seqlaw:%s|crash" % pool[i][0], "comparing [%s] with sequences of the pool died: %s %s" % (pool[i][0], r.crash[0], r.crash[1][-500:])))
             continue
         for l in r.lines:
             if l.startswith("g "):
-                cur = index.get(l[2:].split(" ")[-1])
+                gi += 1
+                cur = gi if (gi < len(canon) and l[2:].split(" ")[-1] == "[" + canon[gi] + "]@0") else None
             elif l.startswith("r ") and cur is not None and (i, cur) in M:
                 seq = l[2:].split(" ")[-1]
                 fl = parse_flags(seq)
@@ -293,7 +293,7 @@ def seq_law(d, pool, canon, M):
 
 def run_all(binary, tier):
     d = drv.Drv(binary, "full", timeout=120, cmd_timeout=60)
-    files = [F1, F2, F3]
+    files = [F1, F2, F3, F4, F5, F6]
     for k, f in enumerate(files):
         d.setup("open id=d%d path=%s" % (k + 1, drv.hx(f)))
     pool = core_pool(tier) + dw_pool(tier)
@@ -308,10 +308,16 @@ def run_all(binary, tier):
     return pool, canon, M, viol, nseq
 
 
+_replay_cache = []
+
+
 def replay(case):
-    ctx = common.Ctx("C09", "quick")
-    _, _, _, viol, _ = run_all(ctx.bin("zwdrv"), "quick")
-    return any(k == case["key"] for k, _ in viol)
+    # the whole matrix is one deterministic computation: it is recomputed once (in a fresh driver) and every alarm is looked up in it
+    if not _replay_cache:
+        ctx = common.Ctx("C09", "quick")
+        _, _, _, viol, _ = run_all(ctx.bin("zwdrv"), "quick")
+        _replay_cache.append({k for k, _ in viol})
+    return case["key"] in _replay_cache[0]
 
 
 def main(ctx):
@@ -334,7 +340,7 @@ def main(ctx):
         "distinct_nontrivial": len(M),
         "rule": "state = ordered pair of pool values with its complete vector of 12 word and 6 infix outcomes evaluated on the engine; every axiom is then decided on "
                 "the matrix for all pairs and all triples; distinct = distinct ordered pair",
-        "bounds": {"pool_size": n, "files": [F1, F2, F3], "closure_type": "excluded as stated"},
+        "bounds": {"pool_size": n, "files": [F1, F2, F3, F4, F5, F6], "closure_type": "excluded as stated"},
     }
     return ctx.finish("model_checking", cov, [
         "the order between values of different types and between unrelated constant domains is unspecified; only consistency (total order axioms) is demanded there",
